@@ -54,6 +54,11 @@ fn main() {
             let a = args[1].clone();
             let _ = run::on_runner_thread(move || orch::runplan(&a));
         }
+        "plan" => {
+            // the generated plan for (property, seed) as JSON
+            let plan = orch::gen_for(&args[1], args[2].parse().unwrap(), "quick");
+            println!("{}", serde_json::to_string(&plan).unwrap());
+        }
         "showplan" => {
             // full trace of the (minimised) plan stored in a replay file
             let a = args[1].clone();
